@@ -49,15 +49,20 @@ CAPSETS = {
     "tls-differs": dict(starttls=True, pre=b"LOGIN", post=b"PLAIN"),
     "tls-only-after": dict(starttls=True, pre=b"", post=b"PLAIN"),
     "tls-none-after": dict(starttls=True, pre=b"PLAIN", post=b"X-OTHER"),
+    "digest": dict(starttls=False, pre=b"DIGEST-MD5", post=b"DIGEST-MD5"),
+    "tls-digest-after": dict(starttls=True, pre=b"PLAIN", post=b"DIGEST-MD5 PLAIN"),
 }
 
 
 OK_FORM = [0]
+FINAL_SASL = [False]
 
 
 def make_server(capset, faults, auth_ok=True):
     srv = _make_server(capset, faults, auth_ok)
     srv.handshake_ok_form = OK_FORM[0]
+    srv.auth_final_sasl = FINAL_SASL[0]
+    srv.digest_users = {"user": "pass"}
     return srv
 
 
@@ -158,8 +163,9 @@ def fault_sets(tier, starttls):
 
 
 def task(t):
-    capset, tier, okform = t
+    capset, tier, okform = t[:3]
     OK_FORM[0] = okform
+    FINAL_SASL[0] = len(t) > 3 and t[3]
     names = public_callables()
     viols = []
     n = 0
@@ -182,13 +188,13 @@ def task(t):
                         distinct.add((starttls, faults1, wrap_fails, auth_ok, f2, o1.key(with_err=False), o2.key(with_err=False) if o2 else None))
                         for clause, text in bad[:3]:
                             viols.append({"property": "C10", "engine": "wire",
-                                          "signature": ["C10", capset + ("+starttls" if starttls else "") + ("/okform%d" % okform if okform else ""),
+                                          "signature": ["C10", capset + ("+starttls" if starttls else "") + ("/okform%d" % okform if okform else "") + ("/final-sasl" if FINAL_SASL[0] else ""),
                                                         "first:%s wrap_fails=%s auth=%s second:%s" % ("+".join("%s@%s" % (a, st) for st, _k, a in faults1) or "ok", wrap_fails,
                                                                                                     "OK" if auth_ok else "NO",
                                                                                                     "none" if f2 is None else (f2 if isinstance(f2, str) else ("+".join("%s@%s" % (a, st) for st, _k, a in f2) or "ok"))),
                                                         clause],
                                           "what": text,
-                                          "case": {"okform": okform, "capset": capset, "starttls": starttls, "faults1": [list(f) for f in faults1], "wrap_fails": wrap_fails,
+                                          "case": {"final_sasl": FINAL_SASL[0], "okform": okform, "capset": capset, "starttls": starttls, "faults1": [list(f) for f in faults1], "wrap_fails": wrap_fails,
                                                    "auth_ok": auth_ok, "second": f2 is not None, "faults2": f2 if isinstance(f2, str) else [list(f) for f in (f2 or ())]},
                                           "witness": "capabilities=%s starttls=%s faults=%r wrap_fails=%s auth_ok=%s second_connect=%r" % (capset, starttls, faults1, wrap_fails, auth_ok, f2),
                                           "observed": "connect: %s / %s" % (o1.brief(), o2.brief() if o2 else None)})
@@ -198,7 +204,7 @@ def task(t):
 
 
 def run(tier, seed):
-    res = pool.run_tasks("checks.c10:task", [(c, tier, f) for c in CAPSETS for f in (0, 1, 2)])
+    res = pool.run_tasks("checks.c10:task", [(c, tier, f, fs) for c in CAPSETS for f in (0, 1, 2) for fs in (False, True)])
     n = sum(r["n"] for r in res)
     viols = []
     for r in res:
@@ -218,6 +224,7 @@ def run(tier, seed):
 def replay(payload):
     c = payload["case"]
     OK_FORM[0] = c.get("okform", 0)
+    FINAL_SASL[0] = bool(c.get("final_sasl"))
     names = public_callables()
     bad, o1, o2, outs = run_history(c["capset"], c["starttls"], [tuple(f) for f in c["faults1"]], c["wrap_fails"], names, names, c["second"],
                                     c["faults2"] if isinstance(c["faults2"], str) else [tuple(f) for f in c["faults2"]], names, c["auth_ok"])
